@@ -47,6 +47,9 @@ def run_case(rng, tier, case):
         d = pts[k1 - 1]
         if rng.random() < 0.3:
             d = d + pd.Timedelta(minutes=10)       # a date between two grid points
+        if d.tzinfo is not None and rng.random() < 0.5:
+            d = d.tz_convert(gen.pick(rng, ['UTC', 'Asia/Kolkata', 'America/New_York']))     # the same instant expressed in another zone
+            case.feature('date_in_other_zone')
         I = d if rng.random() < 0.5 else d.to_pydatetime()
         steps = np.array([t for t in range(T) if pts[t] <= d])
     same_prices = rng.random() < 0.5
